@@ -555,3 +555,14 @@ func fuzzNone(f *testing.F) {
 	f.Add("x")
 	f.Fuzz(func(t *testing.T, s string) {})
 }
+
+// trackCase leaves the case being checked behind for the driver: a race report
+// or a fatal error of the Go runtime kills the process before any result can be
+// written.
+func trackCase(id, sig string, c any) {
+	if dir := os.Getenv("VERIF_OUT"); dir != "" && os.Getenv("VERIF_TRACK_CASE") != "" {
+		cj, _ := json.Marshal(c)
+		raw, _ := json.Marshal(replayFile{Property: id, Signature: sig, Case: cj})
+		_ = os.WriteFile(filepath.Join(dir, "current-case.json"), raw, 0o644)
+	}
+}
